@@ -239,3 +239,14 @@ func (n *Node) QueryStream(r *streamv1.QueryRequest) (*streamv1.QueryResponse, e
 func (n *Node) QueryTrace(r *tracev1.QueryRequest) (*tracev1.QueryResponse, error) {
 	return n.FE.TraceQuery(n.Ctx, r)
 }
+
+// QueryPath draws which query path a run uses for an engine ("measure", "stream", "trace"): the vectorized
+// pipeline (the default of the tree, with a tape-chosen batch size) or the row-at-a-time path. It returns the
+// flags and a short tag for violation classes.
+func QueryPath(choose func(n int) int, engine string) (flags []string, tag string) {
+	if choose(3) == 0 {
+		return []string{"--" + engine + "-vectorized-enabled=false"}, "row-path"
+	}
+	bs := []int{1024, 1, 7, 64}[choose(4)]
+	return []string{"--" + engine + "-vectorized-enabled=true", fmt.Sprintf("--%s-vectorized-batch-size=%d", engine, bs)}, "vectorized"
+}
